@@ -211,28 +211,23 @@ def curie_probes(rng, recs, delim, k=10):
     return out
 
 
-def build_steps(rng, recs, delim, queries, slot=0, p_incremental=0.35):
-    """Steps that build converter `slot` from `recs` and then run `queries` on it.
-
-    With probability `p_incremental` the converter is built the way a long-lived application does it: from a
-    part of the records, *queried* (a sample of the same queries, so that any lazily built or memoised lookup
-    state exists), then extended with add_record / add_prefix, and only then asked the real queries.  The
-    properties quantify over every converter, however it came to hold its records."""
-    from .common import q as _q
-    header = [_q(slot, "records"), _q(slot, "delimiter")]
-    d = [ord(ch) for ch in delim]
-    if len(recs) < 2 or rng.random() >= p_incremental:
-        return [{"op": "init", "dst": slot, "records": recs, "delim": d}] + header + queries, "init"
-    k = rng.randint(1, len(recs) - 1)
+def split_history(rng, recs, p_thin=0.6):
+    """Split a record collection into the records a long-lived converter starts with and what it acquires later:
+    `("add", record)` for records appended later and `("merge", extension)` for synonyms that an initial record
+    (started with only a part of its synonyms) acquires through add_record / add_prefix(merge=True).  Applying
+    `later` in order to a converter built from the first part yields a converter holding `recs` (synonym lists
+    sorted by the merges)."""
+    if len(recs) >= 2:
+        k = rng.randint(1, len(recs) - 1)
+    else:
+        k = len(recs)
     order = list(recs)
     rng.shuffle(order)
     first, rest = order[:k], order[k:]
-    # merge histories: some of the initial records start with only a part of their synonyms and acquire the
-    # rest later through add_record / add_prefix(merge=True), after the converter has been queried
     later = [("add", r) for r in rest]
     thinned = []
     for r in first:
-        if (r["ps"] or r["us"]) and rng.random() < 0.6:
+        if (r["ps"] or r["us"]) and rng.random() < p_thin:
             keep_ps = [x for x in r["ps"] if rng.random() < 0.4]
             keep_us = [x for x in r["us"] if rng.random() < 0.4]
             drop_ps = [x for x in r["ps"] if x not in keep_ps]
@@ -244,6 +239,24 @@ def build_steps(rng, recs, delim, queries, slot=0, p_incremental=0.35):
         else:
             thinned.append(r)
     rng.shuffle(later)
+    return thinned, later
+
+
+def build_steps(rng, recs, delim, queries, slot=0, p_incremental=0.35):
+    """Steps that build converter `slot` from `recs` and then run `queries` on it.
+
+    With probability `p_incremental` the converter is built the way a long-lived application does it: from a
+    part of the records, *queried* (a sample of the same queries, so that any lazily built or memoised lookup
+    state exists), then extended with add_record / add_prefix, and only then asked the real queries.  The
+    properties quantify over every converter, however it came to hold its records."""
+    from .common import q as _q
+    header = [_q(slot, "records"), _q(slot, "delimiter")]
+    d = [ord(ch) for ch in delim]
+    if not recs or (len(recs) < 2 and not (recs[0]["ps"] or recs[0]["us"])) or rng.random() >= p_incremental:
+        return [{"op": "init", "dst": slot, "records": recs, "delim": d}] + header + queries, "init"
+    thinned, later = split_history(rng, recs)
+    rest = [r for kind, r in later if kind == "add"]
+    first = thinned
     warm = [dict(st) for st in rng.sample(queries, min(len(queries), 6))] if queries else []
     warm += [_q(slot, "get_record", uncps(first[0]["p"])), _q(slot, "expand_pair_all", uncps(first[0]["p"]), "1")]
     steps = [{"op": "init", "dst": slot, "records": thinned, "delim": d}] + warm
